@@ -30,4 +30,5 @@ def write_schema_v():
     if not os.path.exists(p) or open(p, encoding="latin-1").read() != txt:
         with open(p, "w", encoding="latin-1") as f:
             f.write(txt)
+    C.want_gen(p, txt.encode("latin-1"))
     return counts
